@@ -19,8 +19,6 @@ from vlib import core
 from gen import host as H
 
 MODULES = ["HmsProofs.C16"]
-if os.environ.get("VERIF_DRV"):      # development only: a scratch driver while the shared one is being rebuilt
-    core.DRV = os.environ["VERIF_DRV"]
 
 # regression witnesses of the findings fixed for this property (always run first)
 REGRESSIONS = [
